@@ -131,8 +131,45 @@ def sum_rule(prog, chk, f, parts):
         chk.decide(good, 'no-partial-sum', U, name, part, loc,
                    'the value path does not establish that %s succeeded (result tested non-zero, error slot forwarded): with '
                    '%s undefined a partial sum would be returned' % (part, part), why='%s tested before the sum is returned' % part)
-    for zp in zero_paths(it, paths):
-        pass
+    # "wherever the parts are defined" the total is defined: the total's OWN failure exits (no part has failed on the path) may test the
+    # arguments and the availability tables that the parts themselves test, nothing else - a guard on a foreign table (the table of
+    # another quantity) makes the total fail for elements whose parts all succeed
+    def own_tables(fn, itf, pth):
+        zname = fn['params'][0]['name']
+        out = {}
+        for q in zero_paths(itf, pth):
+            if not sets_error(q):
+                continue
+            failed = [ev for ev in q.events if ev.kind == 'call' and ev.result is not None and ev.name in parts and itf.is_zero(ev.result, q)]
+            if failed:
+                continue
+            for key, iv in q.facts.items():
+                m_ = re.match(r'^(\w+)\[%s\]$' % re.escape(zname), key)
+                if m_ and (iv.lo is not None or iv.hi is not None or iv.nz):
+                    out.setdefault(m_.group(1), q.ret_node['ln'])
+        return out
+    allowed = set()
+    todo, done = list(parts), set()
+    while todo:
+        part = todo.pop()
+        if part in done or len(done) > 40:
+            continue
+        done.add(part)
+        pf = prog.func(part, required=False)
+        if pf is None or not pf.get('params') or pf['params'][0]['T'] != 'int':
+            continue
+        itp, pp = run_function(prog, pf)
+        allowed |= set(own_tables(pf, itp, pp))
+        # a part that delegates (CS_Photo_Total -> CSb_Photo_Total) inherits the availability guards of its delegate
+        for q in pp:
+            for ev in q.events:
+                if ev.kind == 'call' and ev.name and ev.args and ev.args[-1] is not None and ev.args[-1].canon() == 'error' and prog.func(ev.name, required=False):
+                    todo.append(ev.name)
+    mine = own_tables(f, it, paths)
+    foreign = sorted(t for t in mine if t not in allowed)
+    chk.decide(not foreign, 'total-defined-where-parts-are', U, name, 'availability guards', loc,
+               '%s fails on its own when %s says "no data", a table none of its parts (%s) consults (they test %s): the total is undefined for elements '
+               'whose parts are all defined' % (name, foreign, ', '.join(parts), sorted(allowed)), why='own guards %s are guards of the parts' % sorted(mine))
     nz = [q for q in paths if q.ret is not None and not it.is_zero(q.ret, q)]
     chk.decide(len(nz) == 1, 'no-partial-sum', U, name, 'single value path', loc,
                '%d paths return a non-zero value; only the complete sum may' % len(nz), why='one value path')
